@@ -45,6 +45,7 @@ type Contract struct {
 	Float        string // "exact" (default) or "ideal"
 	Emits        string // name of callback parameter for the emit idiom
 	Inline       bool
+	LocalEffects bool
 	Modifies     []string // ghost relations the function may change
 	ParamNames   []string // receiver and argument names of an interface method contract
 	NoOverflow   bool // do not generate overflow obligations (documented)
@@ -278,6 +279,12 @@ func (cs *ContractSet) parseFile(path, pkgDir string) error {
 				cs.Ghosts = map[string][]string{}
 			}
 			cs.Ghosts[strings.TrimSpace(rest[:i])] = sorts
+		case "localeffects":
+			// every heap write of the function targets objects it allocates itself (checked by the F obligations)
+			if cur == nil {
+				return fail("localeffects outside a contract")
+			}
+			cur.LocalEffects = true
 		case "modifies":
 			if cur == nil {
 				return fail("modifies outside a contract")
